@@ -1,0 +1,31 @@
+//go:build verif
+
+package ociserver
+
+import "net/http"
+
+// This file gives the verification harnesses in /verif access to two unexported
+// functions. It is only built with the "verif" build tag and adds no behaviour.
+
+// VerifChunkRange is chunkRange applied to a request that carries the given
+// Content-Range header (absent when empty) and Content-Length.
+func VerifChunkRange(contentRange string, contentLength int64) (start, end int64, err error) {
+	req := &http.Request{Header: http.Header{}, ContentLength: contentLength}
+	if contentRange != "" {
+		req.Header.Set("Content-Range", contentRange)
+	}
+	return chunkRange(req)
+}
+
+// VerifParseRange is parseRange; each range is returned as a (start, end) pair.
+func VerifParseRange(s string) ([][2]int64, error) {
+	rs, err := parseRange(s)
+	if err != nil {
+		return nil, err
+	}
+	out := make([][2]int64, len(rs))
+	for i, r := range rs {
+		out[i] = [2]int64{r.start, r.end}
+	}
+	return out, nil
+}
